@@ -192,6 +192,11 @@ func faults() []fault {
 			}
 			return "", replaceExt(p.inner, tlswire.ExtECH, nil)
 		}},
+		{rule: "R5:inner-ech-is-outer-type", allowed: illegal, needKey: true, apply: func(rng *mrand.Rand, p *plan) (string, bool) {
+			// the inner hello carries a complete, well-formed OUTER-type ECH extension (a nested ECH offer) instead of the inner marker
+			e := tlswire.ECHOuter(1, aeads[rng.IntN(3)], byte(rng.IntN(256)), hellogen.Bytes(rng, 32), hellogen.Bytes(rng, 40+rng.IntN(100)))
+			return "nested-outer-ech", replaceExt(p.inner, tlswire.ExtECH, &e)
+		}},
 		{rule: "R6:inner-not-tls13", allowed: illegal, needKey: true, apply: func(rng *mrand.Rand, p *plan) (string, bool) {
 			i := p.inner.Find(tlswire.ExtSupportedVersions)
 			if p.n > 0 && i >= p.start && i < p.start+p.n {
